@@ -151,8 +151,21 @@ def propensity(rxn, state, params, t=0.0, vol=None, stochastic=True):
     raise ValueError(typ)
 
 
+def _real(a):
+    """Rates are only specified on the non-negative domain: anything complex / undefined becomes NaN."""
+    if isinstance(a, complex):
+        return float("nan")
+    return a
+
+
 def propensities(model, state, params, t=0.0, vol=None, stochastic=True):
-    return [propensity(r, state, params, t, vol, stochastic) for r in model["reactions"]]
+    out = []
+    for r in model["reactions"]:
+        try:
+            out.append(_real(propensity(r, state, params, t, vol, stochastic)))
+        except (ValueError, ZeroDivisionError, OverflowError, TypeError):
+            out.append(float("nan"))
+    return out
 
 
 def consumption(rxn):
@@ -176,8 +189,11 @@ def safe_propensities(model, state, params, t=0.0, vol=None):
         if any(state[s] < n for s, n in need.items()):
             out.append(0.0)
             continue
-        a = propensity(r, state, params, t, vol, True)
-        out.append(a if a >= 0 else 0.0)
+        try:
+            a = _real(propensity(r, state, params, t, vol, True))
+        except (ValueError, ZeroDivisionError, OverflowError, TypeError):
+            a = float("nan")
+        out.append(a if (a != a or a >= 0) else 0.0)
     return out
 
 
